@@ -29,7 +29,7 @@ def sh(cmd):
 
 def non_test_end(lines):
     for i, l in enumerate(lines):
-        if re.match(r"^\s*#\[cfg\(test\)\]", l) or re.match(r"^mod tests?\b", l):
+        if re.match(r"^(pub )?mod tests?\b", l):
             return i
     return len(lines)
 
